@@ -1,5 +1,6 @@
-"""U-genloop: core/src/language/mod.rs :: Language::generate_types (the default method shared by TypeScript, Kotlin, Swift),
-verbatim, inside a stub `Language` trait whose writer methods record what they are asked to write in a tracked ghost log.
+"""U-genloop: the four generate_types bodies - core/src/language/mod.rs :: Language::generate_types (default method shared by TypeScript,
+Kotlin, Swift) and the overrides in scala.rs, python.rs and go.rs - verbatim, each inside a stub trait whose writer methods record
+what they are asked to write in a tracked ghost log.
 Serves C03 / C11 at the writer boundary: exactly one write_* call per parsed item, of the matching kind, in the order topsort
 returns - none dropped, duplicated or invented; C07."""
 from rsx import A, ins, rep, drop
@@ -34,6 +35,8 @@ fn topsort(things: &mut Vec<RustItem>)
 { unimplemented!() }
 #[verifier::external_body]
 fn used_imports(data: &ParsedData, all_types: &CrateTypes) -> ScopedCrateTypes { unimplemented!() }
+#[verifier::external_body]
+fn outlined_new_sink() -> WriteSink { unimplemented!() }
 '''
 
 TRAIT_HEAD = '''pub trait Language {
@@ -182,23 +185,156 @@ SCALA = [
         ''', where='before'),
 ]
 
+PY_HEAD = '''pub trait PythonGen {
+    fn begin_file(&mut self, w: &mut WriteSink, parsed_data: &ParsedData) -> std::io::Result<()>;
+    fn write_all_imports(&mut self, w: &mut WriteSink) -> std::io::Result<()>;
+    fn write_type_alias(&mut self, w: &mut WriteSink, t: &RustTypeAlias, Tracked(log): Tracked<&mut EmitLog>) -> (r: std::io::Result<()>)
+        ensures final(log).emitted == old(log).emitted.push(RustItem::Alias(*t));
+    fn write_const(&mut self, w: &mut WriteSink, c: &RustConst, Tracked(log): Tracked<&mut EmitLog>) -> (r: std::io::Result<()>)
+        ensures final(log).emitted == old(log).emitted.push(RustItem::Const(*c));
+    fn write_struct(&mut self, w: &mut WriteSink, rs: &RustStruct, Tracked(log): Tracked<&mut EmitLog>) -> (r: std::io::Result<()>)
+        ensures final(log).emitted == old(log).emitted.push(RustItem::Struct(*rs));
+    fn write_enum(&mut self, w: &mut WriteSink, e: &RustEnum, Tracked(log): Tracked<&mut EmitLog>) -> (r: std::io::Result<()>)
+        ensures final(log).emitted == old(log).emitted.push(RustItem::Enum(*e));
+    /// stand-in for the custom-JSON-translation helpers written after the items (iterator chain over a BTreeMap field + writeln!)
+    fn write_custom_translations(&mut self, w: &mut WriteSink) -> std::io::Result<()>;
+
+'''
+
+PYTHON = [
+    rep(A.text('&mut dyn Write'), '&mut WriteSink', tag='T7'),
+    ins(A.text('data: ParsedData,'), ' Tracked(log): Tracked<&mut EmitLog>,', where='after'),
+    ins(A.ret(), '(res: ', where='before'), ins(A.ret(), ')', where='after'),
+    ins(A.sig(), '''
+        ensures
+            /*C03/C11 Python: one write_* call per parsed item, of its kind*/
+            res is Ok ==> exists|order: Seq<RustItem>| final(log).emitted == old(log).emitted + order && order.to_multiset() == all_items(data).to_multiset(),
+    ''', cid='python_generate_types.contract'),
+    ins(A.body_start(), '''
+        let ghost log0 = log.emitted;
+        let ghost all = all_items(data);'''),
+    rep(A.span('aliases .into_iter() .map(RustItem::Alias)', '.collect::<Vec<_>>()'), 'outlined_collect_items_py(aliases, structs, enums, consts)', tag='T3', cid='o_collect_py'),
+    rep(A.text('let mut body: Vec<u8> = Vec::new();'), 'let mut body: WriteSink = outlined_new_sink();', tag='T7', note='the in-memory buffer is only passed on to the writer methods'),
+    ins(A.text('for thing in'), ' it:'),
+    ins(A.text('for thing in items'), '''let ghost sorted = items@;
+        proof { assert(log.emitted =~= log0 + sorted.subrange(0, 0)); }
+        ''', where='before'),
+    ins(A.loop(0), '''
+            invariant
+                sorted.to_multiset() == all.to_multiset(),
+                0 <= it.index@ <= sorted.len(), it.snapshot@.remaining() == sorted,
+                it.history@ =~= sorted.take(it.index@ as int), it.iter.remaining() =~= sorted.skip(it.index@ as int),
+                log.emitted == log0 + sorted.subrange(0, it.index@),
+        ''', cid='python_generate_types.invariant'),
+    ins(A.loop_body(0), '''
+            let ghost k = it.index@;
+            let ghost before = log.emitted;
+            proof { assert(thing == sorted[k]); }'''),
+    ins(A.text('RustItem::Enum(e) => self.write_enum(&mut body, &e'), ', Tracked(log)', where='after'),
+    ins(A.text('RustItem::Struct(rs) => self.write_struct(&mut body, &rs'), ', Tracked(log)', where='after'),
+    ins(A.text('RustItem::Alias(t) => self.write_type_alias(&mut body, &t'), ', Tracked(log)', where='after'),
+    ins(A.text('RustItem::Const(c) => self.write_const(&mut body, &c'), ', Tracked(log)', where='after'),
+    ins(A.loop_end(0), '''
+            proof {
+                assert(log.emitted == before.push(sorted[k]));
+                assert(log0 + sorted.subrange(0, k + 1) =~= (log0 + sorted.subrange(0, k)).push(sorted[k]));
+            }
+        '''),
+    ins(A.loop_after(0), '''
+        proof { assert(sorted.subrange(0, sorted.len() as int) =~= sorted); }'''),
+    rep(A.span('self.types_for_custom_json_translation .iter()', 'writeln!(w) })'), 'self.write_custom_translations(w)', tag='T3',
+        cid=None, note='iterator chain + writeln!: stands behind a stub method of the trait'),
+    rep(A.text('w.write_all(&body)'), 'outlined_flush(w, &body)', tag='T3', cid='o_flush'),
+]
+
+GO_HEAD = '''#[verifier::external_body] pub struct StructTypes { _p: u8 }
+pub trait GoGen {
+    fn begin_file(&mut self, w: &mut WriteSink, parsed_data: &ParsedData) -> std::io::Result<()>;
+    fn write_all_imports(&mut self, w: &mut WriteSink) -> std::io::Result<()>;
+    fn write_type_alias(&mut self, w: &mut WriteSink, t: &RustTypeAlias, Tracked(log): Tracked<&mut EmitLog>) -> (r: std::io::Result<()>)
+        ensures final(log).emitted == old(log).emitted.push(RustItem::Alias(*t));
+    fn write_const(&mut self, w: &mut WriteSink, c: &RustConst, Tracked(log): Tracked<&mut EmitLog>) -> (r: std::io::Result<()>)
+        ensures final(log).emitted == old(log).emitted.push(RustItem::Const(*c));
+    fn write_struct(&mut self, w: &mut WriteSink, rs: &RustStruct, Tracked(log): Tracked<&mut EmitLog>) -> (r: std::io::Result<()>)
+        ensures final(log).emitted == old(log).emitted.push(RustItem::Struct(*rs));
+    fn write_enum(&mut self, w: &mut WriteSink, e: &RustEnum, custom_structs: &StructTypes, Tracked(log): Tracked<&mut EmitLog>) -> (r: std::io::Result<()>)
+        ensures final(log).emitted == old(log).emitted.push(RustItem::Enum(*e));
+
+'''
+
+GO = [
+    rep(A.text('&mut dyn Write'), '&mut WriteSink', tag='T7'),
+    ins(A.text('data: ParsedData,'), ' Tracked(log): Tracked<&mut EmitLog>,', where='after'),
+    ins(A.ret(), '(res: ', where='before'), ins(A.ret(), ')', where='after'),
+    ins(A.sig(), '''
+        ensures
+            /*C03/C11 Go: one write_* call per parsed item, of its kind*/
+            res is Ok ==> exists|order: Seq<RustItem>| final(log).emitted == old(log).emitted + order && order.to_multiset() == all_items(data).to_multiset(),
+    ''', cid='go_generate_types.contract'),
+    ins(A.body_start(), '''
+        let ghost log0 = log.emitted;
+        let ghost all = all_items(data);'''),
+    rep(A.span('aliases .into_iter() .map(RustItem::Alias)', '.collect::<Vec<_>>()'), 'outlined_collect_items_go(aliases, structs, enums, consts)', tag='T3', cid='o_collect_go'),
+    rep(A.span('let mut types_mapping_to_struct = items', 'types_mapping_to_struct.insert(alias.id.original.as_str()); } }'),
+        'let types_mapping_to_struct = outlined_struct_types(&items);', tag='T3', cid='o_structtypes',
+        note='two iterator chains and a loop computing the set of type names that map to structs (read-only on `items`)'),
+    rep(A.text('let mut body: Vec<u8> = Vec::new();'), 'let mut body: WriteSink = outlined_new_sink();', tag='T7'),
+    ins(A.text('for thing in'), ' it:'),
+    ins(A.text('for thing in &items'), '''let ghost sorted = items@;
+        proof { assert(log.emitted =~= log0 + sorted.subrange(0, 0)); }
+        ''', where='before'),
+    ins(A.loop(1), '''
+            invariant
+                sorted == items@, sorted.to_multiset() == all.to_multiset(),
+                0 <= it.index@ <= sorted.len(),
+                log.emitted == log0 + sorted.subrange(0, it.index@),
+        ''', cid='go_generate_types.invariant'),
+    ins(A.loop_body(1), '''
+            let ghost k = it.index@;
+            let ghost before = log.emitted;'''),
+    ins(A.text('RustItem::Enum(e) => self.write_enum(&mut body, e, &types_mapping_to_struct'), ', Tracked(log)', where='after'),
+    ins(A.text('RustItem::Struct(s) => self.write_struct(&mut body, s'), ', Tracked(log)', where='after'),
+    ins(A.text('RustItem::Alias(a) => self.write_type_alias(&mut body, a'), ', Tracked(log)', where='after'),
+    ins(A.text('RustItem::Const(c) => self.write_const(&mut body, c'), ', Tracked(log)', where='after'),
+    ins(A.loop_end(1), '''
+            proof {
+                assert(log.emitted == before.push(sorted[k]));
+                assert(log0 + sorted.subrange(0, k + 1) =~= (log0 + sorted.subrange(0, k)).push(sorted[k]));
+            }
+        '''),
+    ins(A.loop_after(1), '''
+        proof { assert(sorted.subrange(0, sorted.len() as int) =~= sorted); }'''),
+    rep(A.text('w.write_all(&body)'), 'outlined_flush_go(w, &body)', tag='T3', cid='o_flush_go'),
+]
+
 UNIT = Unit(
     name='genloop',
     props=['C03', 'C11', 'C07'],
-    pre_verus='pub mod std { pub mod io { pub type Result<T> = core::result::Result<T, crate::IoError>; } }\n',
+    pre_verus='use vstd::std_specs::iter::IteratorSpec;\npub mod std { pub mod io { pub type Result<T> = core::result::Result<T, crate::IoError>; } }\n',
     prelude=PRELUDE,
     items=[
         Item('enum_RustItem', 'core/src/rust_types.rs', ['enum RustItem']),
         Item('generate_types', 'core/src/language/mod.rs', ['trait Language', 'fn generate_types'], GEN, wrap=(TRAIT_HEAD, '\n}\n')),
+        Item('python_generate_types', 'core/src/language/python.rs', ['impl Language for Python {', 'fn generate_types'], PYTHON, wrap=(PY_HEAD, '\n}\n')),
+        Item('go_generate_types', 'core/src/language/go.rs', ['impl Language for Go {', 'fn generate_types'], GO, wrap=(GO_HEAD, '\n}\n')),
         Item('scala_generate_types', 'core/src/language/scala.rs', ['impl Language for Scala {', 'fn generate_types'], SCALA, wrap=(SCALA_HEAD, '\n}\n')),
     ],
     outlines={
+        'o_collect_py': {'decl': '''fn outlined_collect_items_py(aliases: Vec<RustTypeAlias>, structs: Vec<RustStruct>, enums: Vec<RustEnum>, consts: Vec<RustConst>) -> (r: Vec<RustItem>)
+    ensures r@ == aliases@.map_values(|a: RustTypeAlias| RustItem::Alias(a)) + structs@.map_values(|s: RustStruct| RustItem::Struct(s))
+                  + enums@.map_values(|e: RustEnum| RustItem::Enum(e)) + consts@.map_values(|c: RustConst| RustItem::Const(c))''', 'compile': False},
+        'o_flush': {'decl': 'fn outlined_flush(w: &mut WriteSink, body: &WriteSink) -> (r: std::io::Result<()>)', 'compile': False},
+        'o_collect_go': {'decl': '''fn outlined_collect_items_go(aliases: Vec<RustTypeAlias>, structs: Vec<RustStruct>, enums: Vec<RustEnum>, consts: Vec<RustConst>) -> (r: Vec<RustItem>)
+    ensures r@ == aliases@.map_values(|a: RustTypeAlias| RustItem::Alias(a)) + structs@.map_values(|s: RustStruct| RustItem::Struct(s))
+                  + enums@.map_values(|e: RustEnum| RustItem::Enum(e)) + consts@.map_values(|c: RustConst| RustItem::Const(c))''', 'compile': False},
+        'o_structtypes': {'decl': 'fn outlined_struct_types(items: &Vec<RustItem>) -> (r: StructTypes)', 'compile': False},
+        'o_flush_go': {'decl': 'fn outlined_flush_go(w: &mut WriteSink, body: &WriteSink) -> (r: std::io::Result<()>)', 'compile': False},
         'o_unsup': {'decl': 'fn outlined_unsupported_const(c: &RustConst) -> (r: IoError)', 'compile': False},
         'o_collect': {'decl': '''fn outlined_collect_items(aliases: Vec<RustTypeAlias>, structs: Vec<RustStruct>, enums: Vec<RustEnum>, consts: Vec<RustConst>) -> (r: Vec<RustItem>)
     ensures r@ == aliases@.map_values(|a: RustTypeAlias| RustItem::Alias(a)) + structs@.map_values(|s: RustStruct| RustItem::Struct(s))
                   + enums@.map_values(|e: RustEnum| RustItem::Enum(e)) + consts@.map_values(|c: RustConst| RustItem::Const(c))''', 'compile': False},
     },
-    functions=['Language::generate_types', 'ScalaGen::generate_types'],
+    functions=['Language::generate_types', 'ScalaGen::generate_types', 'PythonGen::generate_types', 'GoGen::generate_types'],
     trusted=[
         'stub trait `Language`: every writer method records exactly the item it is given in the ghost EmitLog (text emission is not under contract); '
         '`dyn Write` replaced by an opaque sink (T7)',
@@ -206,7 +342,6 @@ UNIT = Unit(
         'outlined (T3): Vec::from_iter(aliases.map(Alias).chain(structs.map(Struct)).chain(enums..).chain(consts..)) is the concatenation in that order',
     ],
     undecided=[
-        'the overriding generate_types of the Python and Go back ends (same loop shape; not extracted)',
         'that each write_* method emits one well-formed definition for its item (text emission)',
     ],
 )
